@@ -1,6 +1,8 @@
 import Toq.Driver.QJson
 import Toq.Model.MatrixOps
 import Toq.Model.MatrixPreds
+import Toq.Model.MatrixPredsTol
+import Toq.Model.MatrixPredsDet
 /-! Driver front end for C16 (helper operations of `matrix_ops`, predicates of `matrix_props` /
 `state_props`).
 
@@ -144,7 +146,9 @@ def hSameDim : Handler := fun j => do
 def hMajorizes : Handler := fun j => do
   let a ← getRatList j "a"
   let b ← getRatList j "b"
-  return Json.mkObj [("v", Json.bool (majorizes a b)),
+  -- optional `tol`: the starting value of `ctb` (the code uses `-‖a‖·eps^(3/4)`); absent = the exact criterion
+  let tol : Rat := (getRat j "tol").toOption.getD 0
+  return Json.mkObj [("v", Json.bool (majorizesTol a b tol)),
     ("a_sorted", Json.arr ((padTo (max a.length b.length) (sortDesc a)).map ratJson).toArray)]
 
 def hRank : Handler := fun j => do
@@ -178,7 +182,7 @@ def hPred : Handler := fun j => do
   | "normal" => return verdictJson (normalV A m)
   | "unitary" => return verdictJson (unitaryV A m)
   | "pseudo_unitary" => return verdictJson (pseudoUnitaryV A (← getNat j "p") (← getNat j "q") m)
-  | "pseudo_hermitian" => return exceptVerdictJson (pseudoHermitianV A (← getMat j "B") m)
+  | "pseudo_hermitian" => return exceptVerdictJson (pseudoHermitianVL A (← getMat j "B") m)
   | "identity" => return verdictJson (identityV A m)
   | "idempotent" => return verdictJson (idempotentV A m)
   | "projection" => return verdictJson (projectionV A m)
@@ -196,7 +200,7 @@ def hPred : Handler := fun j => do
   | "permutation" => return verdictJson (permutationV A)
   | "totally_positive" =>
     let ss : Option (List Nat) ← if isNull j "sub_sizes" then pure none else (some <$> getNatList j "sub_sizes")
-    return verdictJson (totallyPositiveV A ss m)
+    return verdictJson (totallyPositiveVL A ss m)
   | "pure" => return verdictJson (pureV A m)
   | "mixed" => return verdictJson (mixedV A m)
   | _ => throw s!"unknown predicate {name}"
@@ -293,6 +297,108 @@ def hCommutantCert : Handler := fun j => do
   let ok := rankCert S (toEMat P r R) (toEMat Q C r) (toEMat N C k) (toEMat M k C)
   return Json.mkObj [("ok", Json.bool ok), ("nullity", Json.num k), ("rank", Json.num r)]
 
+
+/-! ### tolerance-level mirrors (`Toq/Model/MatrixPredsTol.lean`) -/
+
+def exceptBoolJson (v : Except String Bool) : Json :=
+  match v with
+  | .ok b => Json.bool b
+  | .error e => Json.mkObj [("reject", Json.str e)]
+
+/-- evaluate a tolerance-level mirror at the tolerances scaled by `1 - eps`, `1`, `1 + eps`: `{"v":…, "lo":…, "hi":…}`
+    (a verdict is robust against rounding inside the implementation when `lo = hi`) -/
+def threeWay (eps : Rat) (f : Rat → Json) : Json :=
+  Json.mkObj [("v", f 1), ("lo", f (1 - eps)), ("hi", f (1 + eps))]
+
+/-- `{"name":…, "A":mat, "rtol":rat, "atol":rat, "eps":rat, …}`; for the predicates without tolerance arguments `rtol`/`atol`
+    must be the defaults (they are only used to scale) -/
+def hTolPred : Handler := fun j => do
+  let name ← (← j.getObjVal? "name").getStr?
+  let A ← getMat j "A"
+  let rtol ← getRat j "rtol"
+  let atol ← getRat j "atol"
+  let eps ← getRat j "eps"
+  let b := fun (g : Rat → Rat → Bool) => threeWay eps (fun s => Json.bool (g (s * rtol) (s * atol)))
+  let e := fun (g : Rat → Rat → Except String Bool) => threeWay eps (fun s => exceptBoolJson (g (s * rtol) (s * atol)))
+  match name with
+  | "hermitian" => return b (hermitianT A)
+  | "anti_hermitian" => return b (antiHermitianT A)
+  | "symmetric" => return b (symmetricT A)
+  | "normal" => return b (normalT A)
+  | "unitary" => return b (unitaryT A)
+  | "identity" => return b (identityT A)
+  | "idempotent" => return b (idempotentT A)
+  | "projection" => return b (projectionT A)
+  | "positive_semidefinite" => return b (psdT A)
+  | "pseudo_unitary" =>
+    let p ← getInt j "p"
+    let q ← getInt j "q"
+    return e (pseudoUnitaryT A p q)
+  | "pseudo_hermitian" =>
+    let B ← getMat j "B"
+    return e (pseudoHermitianT A B)
+  -- functions without tolerance arguments (`rtol`, `atol` must be the defaults of `np.allclose`)
+  | "circulant" => return b (circulantTol A)
+  | "commuting" =>
+    let B ← getMat j "B"
+    return b (commutingTol A B)
+  | "density" => return b (densityTol A)
+  | "nonnegative" =>
+    let t ← getNat j "mat_type"
+    return e (nonnegativeTol A t)
+  | "stochastic" =>
+    let t ← getNat j "mat_type"
+    return e (stochasticTol A t)
+  | "totally_positive" =>
+    -- `rtol` is not used, `atol` carries the argument `tol`
+    let ss : Option (List Nat) ← if isNull j "sub_sizes" then pure none else (some <$> getNatList j "sub_sizes")
+    return threeWay eps (fun s => exceptBoolJson (totallyPositiveT A (s * atol) ss))
+  | "diagonal" => return threeWay eps (fun _ => Json.bool (diagonalTrick A))      -- no tolerance: exact zeros
+  | "mutually_orthogonal" => return e (mutuallyOrthogonalTol A.r A.c (fun k a => A.f a k))
+  | "orthonormal" => return e (orthonormalTol A.r A.c (fun k a => A.f a k))
+  | _ => throw s!"unknown tolerance predicate {name}"
+
+/-- lists of operators: `is_ensemble` -/
+def hTolEnsemble : Handler := fun j => do
+  let As ← getMatList j "As"
+  let rtol ← getRat j "rtol"
+  let atol ← getRat j "atol"
+  let eps ← getRat j "eps"
+  return threeWay eps (fun s => Json.bool (ensembleTol As (s * rtol) (s * atol)))
+
+
+/-- `{"states":[mat…], "k":k, "is1d":bool}` : `tensor_comb` on Gaussian-integer states -/
+def hTensorComb : Handler := fun j => do
+  let states ← getGMatList j "states"
+  let k ← getNat j "k"
+  let is1d ← getBool j "is1d"
+  match tensorComb is1d states k with
+  | none => return reject "ValueError"
+  | some l =>
+    return Json.mkObj [("entries", Json.arr (l.map fun (seq, d) => Json.mkObj [("seq", natListJson seq), ("rho", gmatJson d)]).toArray)]
+
+/-- argument guards of the helpers: `{"name":…, "shape":[…] | "shapes":[[…]…], "ndarray":bool}` -/
+def hGuard : Handler := fun j => do
+  let name ← (← j.getObjVal? "name").getStr?
+  match name with
+  | "is_square" =>
+    match isSquareShape (parseShape (← getNatList j "shape")) with
+    | some b => return Json.mkObj [("v", Json.bool b)]
+    | none => return reject "ValueError"
+  | "spark" =>
+    if sparkGuard (← getBool j "ndarray") (parseShape (← getNatList j "shape")) then return Json.mkObj [("ok", Json.bool true)]
+    else return reject "ValueError"
+  | "gram" =>
+    let a ← (← j.getObjVal? "shapes").getArr?
+    let shapes ← a.toList.mapM asNatList
+    if gramGuard (shapes.map parseShape) then return Json.mkObj [("ok", Json.bool true)] else return reject "ValueError"
+  | "from_gram" =>
+    match ← getNatList j "shape" with
+    | [r, c] => if fromGramGuard r c then return Json.mkObj [("ok", Json.bool true)] else return reject "LinAlgError"
+    | _ => throw "shape: expected [r, c]"
+  | "calc_dim_list" => return reject "ValueError"      -- `if not isinstance(item, np.ndarray): raise ValueError`
+  | _ => throw s!"unknown guard {name}"
+
 def handlers : List (String × Handler) :=
   [("c16_vec", hVec), ("c16_unvec", hUnvec), ("c16_tensor", hTensor), ("c16_kron_pow", hKronPow),
    ("c16_mul", hMul), ("c16_gram", hGram), ("c16_to_density", hToDensity), ("c16_calc_dim", hCalcDim),
@@ -300,6 +406,7 @@ def handlers : List (String × Handler) :=
    ("c16_commutant_dim", hCommutantDim), ("c16_pred", hPred), ("c16_list_pred", hListPred),
    ("c16_set_pred", hSetPred), ("c16_mub", hMub), ("c16_upb", hUpb),
    ("c16_psd_cert", hPsdCert), ("c16_npsd_cert", hNpsdCert),
+   ("c16_tol_pred", hTolPred), ("c16_tensor_comb", hTensorComb), ("c16_guard", hGuard), ("c16_tol_ensemble", hTolEnsemble),
    ("c16_linindep_cert", hLinIndepCert), ("c16_lindep_cert", hLinDepCert), ("c16_commutant_cert", hCommutantCert)]
 
 end Toq.Driver.C16
